@@ -177,7 +177,8 @@ def extract(repo):
     pretc_return_at = dm.group(1)
     sc = _strip(open(os.path.join(repo, "src/clutils/Str.cc")).read())
     cb = re.sub(r"\s+", "", _body(sc, "Severity CheckRemainingInput( istream & in, ErrorDescriptor * err,"))
-    gm = re.search(r"if\(IsDelimiter\(delimiterList,c\)\)\{in\.putback\(c\);.*?err->GreaterSeverity\((SEVERITY_\w+)\);\}else\{", cb)
+    # (since C05-15 the skip also ends at the record's `;` outside a string: `!endOfRecord &&`; a value of the token model has no `;`)
+    gm = re.search(r"if\((?:!endOfRecord&&)?IsDelimiter\(delimiterList,c\)\)\{in\.putback\(c\);.*?err->GreaterSeverity\((SEVERITY_\w+)\);\}else\{", cb)
     if not gm or "charc=in.peek();if(!IsDelimiter(delimiterList,c)){" not in cb:
         raise ValueError("CheckRemainingInput: recovery branch changed")
     sev_garbage = gm.group(1)
